@@ -37,6 +37,8 @@ def lifecycle_case(draw, tier="quick"):
         if kind == "create":
             op = {"op": "create", "side": draw(st.integers(0, 1)), "ordered": draw(st.booleans()), "mr": None, "mlt": None,
                   "label": draw(TEXT), "protocol": draw(TEXT), "dt": dt}
+            if draw(st.integers(0, 4)) == 0:
+                op["refill"] = draw(st.sampled_from([100, 1500, 5000]))
             rel = draw(st.sampled_from(["reliable", "reliable", "mr", "mlt"]))
             if rel == "mr":
                 op["mr"] = draw(st.sampled_from([0, 1, 5, 65535]))
@@ -124,24 +126,49 @@ def _run_lifecycle(case: dict, flags: dict) -> Outcome:
         if s.sctp:
             check_buffered(where)
 
+    low_stats: dict = {}  # id(ch) -> {"expected": n, "fired": n}
+
     def on_attach(rec, side, ch) -> None:
         note(ch, "attach")
         orig = ch._addBufferedAmount
-        fired = {"n": 0}
-        ch.on("bufferedamountlow", lambda: fired.__setitem__("n", fired["n"] + 1))
+        st_ = low_stats.setdefault(id(ch), {"expected": 0, "fired": 0, "crossing_depth": 0, "rec": rec.idx, "side": side})
+
+        def on_low() -> None:
+            st_["fired"] += 1
+            if st_["crossing_depth"] == 0:
+                problems.append(("bufferedamountlow", f"channel {rec.idx} side {side}: bufferedamountlow fired although bufferedAmount "
+                                 f"({ch.bufferedAmount}) was not crossing the threshold ({ch.bufferedAmountLowThreshold}) downwards"))
+
+        ch.on("bufferedamountlow", on_low)
 
         def wrapped(amount: int) -> None:
-            old, thr, before = ch.bufferedAmount, ch.bufferedAmountLowThreshold, fired["n"]
-            orig(amount)
-            new = ch.bufferedAmount
-            expect = 1 if (old > thr >= new) else 0
-            if ch.readyState == "closed":
-                return  # a closed channel emits nothing any more (its listeners are gone)
-            if fired["n"] - before != expect:
-                problems.append(("bufferedamountlow", f"channel {rec.idx} side {side}: bufferedAmount {old} -> {new} with threshold {thr}: "
-                                 f"{fired['n'] - before} bufferedamountlow event(s), expected {expect}"))
+            old, thr = ch.bufferedAmount, ch.bufferedAmountLowThreshold
+            crossing = old > thr >= old + amount and ch.readyState != "closed"
+            if crossing:
+                st_["expected"] += 1
+                st_["crossing_depth"] += 1
+            try:
+                orig(amount)
+            finally:
+                if crossing:
+                    st_["crossing_depth"] -= 1
 
         ch._addBufferedAmount = wrapped  # type: ignore[method-assign]
+        refill = rec.params.get("refill") or 0
+        if refill:
+            # the usual refill-on-low idiom: the application sends more from inside the handler
+            budget = {"n": 3}
+
+            def refill_now() -> None:
+                if budget["n"] > 0 and ch.readyState == "open":
+                    budget["n"] -= 1
+                    from vlib.sctpsim import make_value
+
+                    value = make_value(rec.idx, side, len(rec.sent[side]), "bytes", refill, 7)
+                    rec.sent[side].append(value)
+                    ch.send(value)
+
+            ch.on("bufferedamountlow", refill_now)
         for ev in ("open", "close", "message"):
             ch.on(ev, lambda *a, ev=ev: (note(ch, "event " + ev), check_buffered("event " + ev)))
 
@@ -192,6 +219,9 @@ def _run_lifecycle(case: dict, flags: dict) -> Outcome:
             established = all(t._association_state == t.State.ESTABLISHED for t in s.sctp)
             if not (closed_everywhere and oid is not None and not in_use and established):
                 return  # an id is only reused once its channel is closed on both ends (anything else is misuse)
+            # ... and by the side that used it before: an id of the other side's parity can collide with that side's own
+            # automatic choice for a channel it opens at the same moment
+            op = dict(op, side=old.creator)
             reuses.append(old.idx)
             try:
                 orig_do(n, op)
@@ -258,6 +288,10 @@ def _run_lifecycle(case: dict, flags: dict) -> Outcome:
             if ch.bufferedAmount != 0 and ch.readyState == "open" and established:
                 return Outcome(f"channel {rec.idx} side {side}: bufferedAmount {ch.bufferedAmount} at quiescence ({ch.readyState})",
                                "buffered-not-drained", nt, cl)
+    for st_ in low_stats.values():
+        if st_["fired"] != st_["expected"]:
+            return Outcome(f"channel {st_['rec']} side {st_['side']}: bufferedAmount crossed its threshold downwards {st_['expected']} time(s) "
+                           f"while the channel was not closed, bufferedamountlow fired {st_['fired']} time(s)", "bufferedamountlow-count", nt, cl)
     for side, ch in s.unpaired:
         return Outcome(f"datachannel event on side {side} for id {ch.id} label {ch.label[:30]!r} that matches no channel opened by the peer "
                        f"(a second event for one channel, or an invented one)", "datachannel-unmatched", nt, cl)
@@ -271,6 +305,15 @@ def _run_lifecycle(case: dict, flags: dict) -> Outcome:
         if p.get("neg_id") is None and p.get("id") is None and creator.id is not None:
             auto_ids[rec.creator].add(creator.id)
         reached_open = "open" in seen_states.get(id(creator), [])
+        touched = any(c[0] == rec.idx for c in closes)
+        if p.get("neg_id") is None and established and not stopped and not touched and all(t.state == "connected" for t in s.sctp):
+            # the open handshake is reliable whatever the channel's own reliability: once the network has recovered the
+            # channel is open on its creator and has been announced to the peer
+            if creator.readyState != "open" or peer is None:
+                return Outcome(f"channel {rec.idx} ({'reliable' if p.get('mr') is None and p.get('mlt') is None else 'partially reliable'}, "
+                               f"label {creator.label[:20]!r}) is {creator.readyState} on its creator and "
+                               f"{'was never announced to' if peer is None else 'is ' + peer.readyState + ' on'} the peer at quiescence",
+                               "never-opened", nt, cl)
         if p.get("neg_id") is None:
             if reached_open and established and not stopped:
                 if peer is None:
@@ -337,7 +380,7 @@ CHECK = Check(
         "reconfig-not-retransmitted": lambda fam, case, out: out.kind == "close-incomplete" and bool(out.info.get("reconfig_dropped")),
         # besides the half-closed channel, the old stream's late DATA can then surface on a channel that reuses the id
         "reset-overtakes-data": lambda fam, case, out: out.kind in ("close-incomplete", "transcript-extra-message", "transcript-corrupted",
-                                                                   "datachannel-unmatched") and bool(out.info.get("reset_overtook_data")),
+                                                                   "datachannel-unmatched", "never-opened", "undelivered") and bool(out.info.get("reset_overtook_data")),
     },
     assumptions=["as C01; bufferedAmount is compared with the anchored _data_channel_queue"],
 )
